@@ -322,7 +322,14 @@ func (dec *Decoder) LastReferenceIndex() int {
 
 // ReadReference to p.
 func (dec *Decoder) ReadReference(p interface{}) {
-	o := dec.refer.Read(dec.ReadInt())
+	index := dec.ReadInt()
+	if index < 0 || index > dec.refer.Last() {
+		if dec.Error == nil {
+			dec.Error = DecodeError("hprose/io: reference index out of range")
+		}
+		return
+	}
+	o := dec.refer.Read(index)
 	src := reflect.TypeOf(o)
 	dest := reflect.TypeOf(p).Elem()
 	if conv := GetConverter(src, dest); conv != nil {
